@@ -1,5 +1,6 @@
 // C17 -- node status rules and status-filtered iteration are exact.
 #define PROPERTY_ID "C17"
+#define VH_HAS_ENUM
 #include "adapter.hpp"
 #include "gen.hpp"
 #include "harness.hpp"
@@ -9,13 +10,80 @@ static std::string vec_str(const std::vector<size_t>& v)
     return vg::describe_set(v);
 }
 
+// Complete enumeration of the border-status combinations: 4^4 raster combinations on the
+// shapes 2x2, 2x3, 3x2, 3x4 for each connectivity, 4^2 profile combinations on sizes 2, 3, 5;
+// every one through the status-array constructor and (when all four are equal) also through the
+// single-status constructor.  Encoded as the byte string {0xEE, kind, connect, shape, borders...}.
+static const size_t N_RASTER_SHAPES = 4, N_PROFILE_SIZES = 3;
+static size_t enum_count()
+{
+    return 256 * N_RASTER_SHAPES * 3 + 16 * N_PROFILE_SIZES + 4 * (N_RASTER_SHAPES * 3 + N_PROFILE_SIZES);
+}
+static std::vector<uint8_t> enum_case(size_t k)
+{
+    size_t nr = 256 * N_RASTER_SHAPES * 3, np = 16 * N_PROFILE_SIZES;
+    if (k < nr)
+    {
+        size_t combo = k % 256, rest = k / 256;
+        return { 0xEE, 0, static_cast<uint8_t>(rest % 3), static_cast<uint8_t>(rest / 3), static_cast<uint8_t>(combo & 3), static_cast<uint8_t>((combo >> 2) & 3), static_cast<uint8_t>((combo >> 4) & 3), static_cast<uint8_t>((combo >> 6) & 3), 0 };
+    }
+    k -= nr;
+    if (k < np)
+        return { 0xEE, 1, 0, static_cast<uint8_t>(k / 16), static_cast<uint8_t>(k & 3), static_cast<uint8_t>((k >> 2) & 3), 0, 0, 0 };
+    k -= np;
+    // uniform constructor
+    size_t st = k % 4, which = k / 4;
+    if (which < N_RASTER_SHAPES * 3)
+        return { 0xEE, 0, static_cast<uint8_t>(which % 3), static_cast<uint8_t>(which / 3), static_cast<uint8_t>(st), static_cast<uint8_t>(st), static_cast<uint8_t>(st), static_cast<uint8_t>(st), 1 };
+    which -= N_RASTER_SHAPES * 3;
+    return { 0xEE, 1, 0, static_cast<uint8_t>(which), static_cast<uint8_t>(st), static_cast<uint8_t>(st), 0, 0, 1 };
+}
+
+static va::GridSpec enumerated_spec(vg::Src& s)
+{
+    va::GridSpec sp;
+    static const uint8_t stat[] = { va::ST_CORE, va::ST_FIXED_VALUE, va::ST_FIXED_GRADIENT, va::ST_LOOPED };
+    static const size_t shapes[][2] = { { 2, 2 }, { 2, 3 }, { 3, 2 }, { 3, 4 } };
+    static const size_t psizes[] = { 2, 3, 5 };
+    bool profile = s.u8() % 2 == 1;
+    size_t conn = s.u8() % 3, shape = s.u8();
+    sp.kind = profile ? va::K_PROFILE : va::K_RASTER;
+    sp.connect = static_cast<int>(conn);
+    if (profile)
+    {
+        sp.rows = 1;
+        sp.cols = psizes[shape % N_PROFILE_SIZES];
+    }
+    else
+    {
+        sp.rows = shapes[shape % N_RASTER_SHAPES][0];
+        sp.cols = shapes[shape % N_RASTER_SHAPES][1];
+    }
+    for (int b = 0; b < 4; ++b)
+        sp.border[b] = stat[s.u8() % 4];
+    sp.uniform_border_ctor = s.u8() % 2 == 1;
+    sp.dy = 1.5;
+    sp.dx = 2;
+    return sp;
+}
+
 static void check_case(vg::Src& s, vh::Ctx& c)
 {
     vg::GridOpts o;
-    o.valid_only = !s.chance(110);  // ~43% of the cases may carry a rejected configuration
-    o.max_side = c.arg > 0 ? static_cast<size_t>(c.arg) : 9;
-    o.profile_max = 24;
-    va::GridSpec sp = vg::gen_grid(s, o);
+    va::GridSpec sp;
+    if (s.n > 0 && s.d[0] == 0xEE)
+    {
+        s.u8();
+        sp = enumerated_spec(s);
+        c.label("enumerated-border-combination");
+    }
+    else
+    {
+        o.valid_only = !s.chance(110);  // ~43% of the cases may carry a rejected configuration
+        o.max_side = c.arg > 0 ? static_cast<size_t>(c.arg) : 9;
+        o.profile_max = 24;
+        sp = vg::gen_grid(s, o);
+    }
     vm::ModelGrid m = vm::build_model(sp);
     c.desc = vm::describe(sp) + (m.ctor_throws ? " => model: rejected (" + m.throw_reason + ")" : " => model: accepted");
     c.announce();
